@@ -66,6 +66,14 @@ VS_LENGTHS = list(range(1000, 1026)) + list(range(2040, 2051)) + list(range(4090
 # every length up to a little beyond twice the first buffer size: a private fast path with a buffer
 # of ANY size below that (200, 256, 512, ... bytes) has its boundary in here
 VS_SWEEP = list(range(0, 2101)) + list(range(4090, 4101)) + [5000, 8191, 8192, 8193, 10000]
+# ... and N-1, N, N+1 around every integer constant the CURRENT container sources contain after
+# preprocessing (the expansion of the formatting macro included: BUFSIZ, PATH_MAX, private buffers) - seed C11-m9
+import vlib as _vlib
+VS_SOURCE = sorted({n + d for n in _vlib.source_numbers(
+    ["src/containers/qhashtbl.c", "src/containers/qlisttbl.c", "src/containers/qtreetbl.c", "src/containers/qhasharr.c",
+     "src/containers/qgrow.c"], lo=64, hi=70000) for d in (-1, 0, 1)})
+VS_LENGTHS = VS_LENGTHS + [n for n in VS_SOURCE if n not in VS_LENGTHS and n > 1025]
+VS_SWEEP = VS_SWEEP + [n for n in VS_SOURCE if n not in VS_SWEEP]
 
 
 def vs_value(n, salt=0):
